@@ -269,8 +269,14 @@ pub broadcast proof fn lemma_ctrl_push<W>(t: Seq<Ev<W>>, e: Ev<W>)
     assert(t.push(e).drop_last() == t);
     assert(t.push(e).last() == e);
 }
+pub broadcast proof fn lemma_ctrl_px_pushed<W>(a: Seq<Ev<W>>, b: Seq<Ev<W>>)
+    requires #[trigger] px_pushed(a, b)
+    ensures ctrl(b) == (Ctrl { px: ctrl(a).px + 1, ..ctrl(a) })
+{
+    assert(b.len() > 0);
+}
 pub broadcast group group_trace {
-    lemma_ctrl_push,
+    lemma_ctrl_push, lemma_ctrl_px_pushed,
 }
 
 // ------------------------------------------------------------------------- orientation geometry
